@@ -266,10 +266,48 @@ def run(ctx):
             gotl = [int(x["v"]) for x in r.results[0][0]["v"]] if r.ok() and r.results else None
             if gotl != want:
                 bad("family", "on %s (machine %d) the symbols whose %s equals %s are %s; by the family rule %s" % (os.path.basename(path), e.e_machine, "label" if k == "STT" else "binding", w, str(gotl)[:80], str(want)[:80]), dict(case, word=w))
+    # a symbol that was copied (bound to a name, taken out of a sequence) is still that symbol: the CLI prints the
+    # same lines - on archives the position of a symbol differs from its index in its member's table
+    for path in [ap for ap, _ in archives] + [os.path.join(d, "sym0.o")]:
+        outs = []
+        for q in ("symbol", "symbol (|S| S)", "(|D| [D symbol] elem)", "(|D| let S := D symbol; S)", "symbol dup drop", "(|D| [D symbol] (|L| L elem (|S| S)))"):
+            pr = subprocess.run([common.impl_bin("dwgrep"), path, "-e", q], stdout=subprocess.PIPE, stderr=subprocess.PIPE, timeout=300)
+            outs.append((q, pr.stdout))
+            evaluations += 1
+        for q, o in outs[1:]:
+            if o != outs[0][1]:
+                la, lb = outs[0][1].decode("latin1").split("\n"), o.decode("latin1").split("\n")
+                k0 = next((i for i, (x, y) in enumerate(zip(la, lb)) if x != y), min(len(la), len(lb)))
+                bad("copy", "on %s `dwgrep -e '%s'` prints %r where `-e symbol` prints %r (line %d)" % (os.path.basename(path), q, lb[k0][:80] if k0 < len(lb) else None, la[k0][:80] if k0 < len(la) else None, k0),
+                    {"file": path, "query": q, "kind": "copied-symbol"})
+                break
+    # files of different machines opened by one query: every symbol's type and binding are named in the family of
+    # its own file, whatever was opened before it
+    bymach = {}
+    for pth, kind in files:
+        if kind.startswith("patched-") or kind == "assembled":
+            bymach.setdefault(kind, pth)
+    mixes = [list(bymach.values()), list(reversed(list(bymach.values())))] + [[a_, b_] for a_ in list(bymach.values())[:3] for b_ in list(bymach.values())[-3:] if a_ != b_]
+    RQ = 'dwopen symbol [pos, label, binding, visibility] "%s"'
+    single = {}
+    for pth in bymach.values():
+        r_ = zw.run_cases([zw.enc('"%s" %s' % (pth, RQ), max=100000)], chunk=1)[0]
+        single[pth] = [bytes.fromhex(x[0]["v"]).decode("latin1") for x in r_.results] if r_.ok() else None
+    for mix in mixes:
+        if any(single[p_] is None for p_ in mix):
+            continue
+        r_ = zw.run_cases([zw.enc("(%s) %s" % (", ".join('"%s"' % p_ for p_ in mix), RQ), max=1000000)], chunk=1)[0]
+        evaluations += 1
+        got = [bytes.fromhex(x[0]["v"]).decode("latin1") for x in r_.results] if r_.ok() else "fails: %s" % (r_.crash or r_.hard)
+        want = [l for p_ in mix for l in single[p_]]
+        if got != want:
+            k0 = next((i for i, (x, y) in enumerate(zip(got, want)) if x != y), 0) if isinstance(got, list) else 0
+            bad("mixed-machines", "`(%s) dwopen symbol ...` renders symbol %d as %s; opened alone its file gives %s" % (", ".join(os.path.basename(p_) for p_ in mix), k0, got[k0] if isinstance(got, list) and k0 < len(got) else got, want[k0] if k0 < len(want) else None),
+                {"files": mix, "kind": "mixed-machines", "query": RQ})
     common.report_broken_obligations(ctx, oblig, bool(ctx.violations))
     ctx.cov.update({
         "evaluations": evaluations, "distinct_nontrivial": nsyms,
-        "rule": "%d ELF files: freshly assembled objects (40/120 generated symbols each: function/object/tls/notype/ifunc/unique/common x global/weak/local x default/hidden/protected/internal, absolute, undefined, weak undefined, section and file symbols, long names), each also patched to random type/binding codes 0-15 with st_other upper bits set and re-labelled as %s; the sample binaries; a linked shared object (ET_DYN), an object with 66000 symbols, two ar archives of three and four members (one module per member, symbols of all members in order); every symbol compared on pos, name, value, address, size, type, binding, visibility with a struct-level reader (cross-checked with readelf -sW), and every file x every STT_/STB_ word (%d) on the family rule" % (len(files), "/".join(MACHINES), len(words)),
+        "rule": "%d ELF files: freshly assembled objects (40/120 generated symbols each: function/object/tls/notype/ifunc/unique/common x global/weak/local x default/hidden/protected/internal, absolute, undefined, weak undefined, section and file symbols, long names), each also patched to random type/binding codes 0-15 with st_other upper bits set and re-labelled as %s; the sample binaries; a linked shared object (ET_DYN), an object with 66000 symbols, two ar archives of three and four members (one module per member, symbols of all members in order); every symbol compared on pos, name, value, address, size, type, binding, visibility with a struct-level reader (cross-checked with readelf -sW), and every file x every STT_/STB_ word (%d) on the family rule; copied symbols (bound, taken out of sequences) printed by the CLI on archives; files of different machines opened by one query, in several orders" % (len(files), "/".join(MACHINES), len(words)),
         "samples": [], "machines_seen": sorted(machines_seen), "traces_validated_against_impl": nsyms + evaluations, "violations_by_kind": viol,
     })
     return ctx.finish(oblig)
